@@ -589,8 +589,14 @@ func sessionChargingReservation(
 
 			ue.UnitCost[rg] = getUnitCost(ue, rg, sur)
 
+			// a report without requestedUnit (e.g. at release) asks for nothing more
+			var requestedVolume uint32
+			if unitUsage.RequestedUnit != nil {
+				requestedVolume = uint32(unitUsage.RequestedUnit.TotalVolume)
+			}
+
 			usedQuota := uint64(totalUsedUnit * ue.UnitCost[rg])
-			requestedQuota = uint64(uint32(unitUsage.RequestedUnit.TotalVolume) * ue.UnitCost[rg])
+			requestedQuota = uint64(requestedVolume * ue.UnitCost[rg])
 			ue.ReservedQuota[rg] -= int64(usedQuota)
 			// Top the reservation up to the requested quota whenever it falls short of it
 			NeedReserveQuota := ue.ReservedQuota[rg] < int64(requestedQuota)
@@ -651,7 +657,7 @@ func sessionChargingReservation(
 
 			ue.UnitCost[rg] = getUnitCost(ue, rg, sur)
 
-			grantedUnit := min(uint32(serviceUsageRsp.ServiceRating.AllowedUnits), uint32(unitUsage.RequestedUnit.TotalVolume))
+			grantedUnit := min(uint32(serviceUsageRsp.ServiceRating.AllowedUnits), requestedVolume)
 
 			if ue.RatingType[rg] == charging_datatype.REQ_SUBTYPE_RESERVE {
 				unitInformation.Triggers = append(unitInformation.Triggers,
